@@ -11,6 +11,9 @@ import Ctrmml.Properties.C13
 import Ctrmml.Spec.MdsResolve
 import Ctrmml.Proofs.MdsReadParse
 import Ctrmml.Proofs.MdsReadOps
+import Ctrmml.Proofs.MdsFragRun
+import Ctrmml.Proofs.MdsFragSize
+import Ctrmml.Proofs.MdsFragEx
 namespace Ctrmml.MdsFile
 open Ctrmml Ctrmml.Mds Tables
 
@@ -962,6 +965,230 @@ theorem C09_nothing_unused_bytes {song : Song} {d : DataInfo} (hpc : PlatformCle
         rw [hfit.2.2.1 ht hne, ha] at this; exact this
     · exact .inr ⟨l, hl, ev, he, hr⟩
 
+
+/-! ### round 4: the fragment hypothesis discharged, the 4 GiB bound from input sizes -/
+
+/-- **`writer_run_in_frag`**: whatever `while(writer.is_enabled()) writer.step_event()` returns, for ANY
+conversion state, budget and track, started from a fresh player and a fresh writer (the only way
+`parse_track`, `get_subroutine` and `get_macro_track` start it), is in the reader fragment
+`MdsRead.Frag`: every event has a defined encoding (`okEv`), the last event is the only terminator
+(`FINISH` / `JUMP` from `end_hook`, `DMFINISH` of a drum routine), loops are balanced.  Balance is
+the player's loop discipline (`Proofs/MdsFragStack.coreStep_depth`: the writer's `LP`/`LPF` follow
+the first-pass loop frames of the stack; at `end_hook` the stack is empty; the `DMFINISH` case is
+D25's repair: the hook is not silenced and the stack top is no loop, so the stack is empty).
+Side condition on platform commands: `platformFrag` (the injected raw events are `okEv`, no
+terminators, no loop brackets) — nothing else is assumed, in particular not that the song validates. -/
+theorem C09_writer_run_in_frag {song : Song} {d : DataInfo} (hpf : platformFrag d = true) (evs : List Event)
+    (fuel steps : Nat) (c c' : Conv) (en inDrum : Bool) (t : Int) (w : WState)
+    (h : runWriter song d evs fuel steps c { drumEnabled := en, inDrum := inDrum, trackId := t } Player.initState = .ok (c', w)) :
+    MdsRead.Frag w.out :=
+  MdsFragP.runWriter_frag hpf evs steps fuel c _ Player.initState c' w (MdsFragP.rinv_init song evs en inDrum t) h
+
+/-- **`writer_outputs_in_frag`**: every channel-track list and every subroutine list of an export is
+in the reader fragment (the former hypothesis `hfr` of `C09_full_partial`). -/
+theorem C09_writer_outputs_in_frag {song : Song} {d : DataInfo} (hpc : PlatformClean d) (hpf : platformFrag d = true)
+    {vol : Option String} {b : Built} (h : construct song d vol = .ok b) :
+    ∀ l ∈ b.trackList.map (·.2) ++ b.conv.subList, MdsRead.Frag l :=
+  MdsFragP.construct_frag hpc hpf h
+
+/-- **`hsmall` from the input sizes**: an export whose `#group` value, `seq `, PCM block and used
+data-bank items add up to less than 4 GiB − 64 (`exportSmall`, decidable) serialises to a `small`
+chunk tree (every data vector below 4 GiB). -/
+theorem C09_small_of_sizes {b : Built} {bank : List (List Nat)} {group pcm : Bytes}
+    (h : exportSmall b bank group pcm = true) :
+    ∀ ts, entryTrees b.conv.subList.length b.conv.macroList.length bank (usedSorted b.conv) = some ts →
+      (mdsTree (toU8 b.seq) group pcm ts).small :=
+  small_of_exportSmall h
+
+/-- in particular: data bank items and PCM block below 2 GiB in total, `seq ` and `#group` below
+1 GiB each (64 bytes of slack) -/
+theorem C09_small_of_2GiB {b : Built} {bank : List (List Nat)} {group pcm : Bytes}
+    (h1 : usedBytes bank (usedSorted b.conv) + pcm.length < 2147483648) (h2 : b.seq.length < 1073741824)
+    (h3 : group.length < 1073741760) : exportSmall b bank group pcm = true := by
+  unfold exportSmall sizeBound
+  simp only [decide_eq_true_eq]; omega
+
+/-- **`full` (partial, round 4)**: `C09_full_partial` without the fragment hypothesis and with the
+4 GiB bound replaced by the decidable size bound on the inputs.  Residual hypotheses:
+`PlatformClean` and `platformFrag` (both about raw platform `cmd`s only; both hold when the song
+has no platform command), streams shorter than 64 KiB, sorted track map (a `std::map`), at least
+one channel track, `exportSmall`. -/
+theorem C09_full_partial2 {song : Song} {d : DataInfo} (hpc : PlatformClean d) (hpf : platformFrag d = true)
+    {vol : Option String} {b : Built}
+    (h : construct song d vol = .ok b) {bank : List (List Nat)} {group pcm f : Bytes} (hg : getMds b bank group pcm = .ok f)
+    (hs : (song.tracks.map (·.1)).Pairwise (· < ·)) (hn : 0 < b.trackList.length)
+    (hsize : exportSmall b bank group pcm = true)
+    (hlen : ∀ s ∈ b.trackStreams ++ b.subStreams, s.length < 65536) :
+    ∃ mf hd, MdsResolve.parseFile f = .ok mf ∧ mf.seq = b.seq ∧ mf.group = MdsResolve.nat group ∧
+      mf.version = [MDSDRV_SEQ_VERSION_MAJOR, MDSDRV_SEQ_VERSION_MINOR] ∧
+      MdsResolve.headerOf mf.seq = some hd ∧ hd.base = 4 + 4 * b.trackList.length ∧ hd.volume = volByte vol ∧
+      hd.slots = b.conv.subList.length + b.conv.macroList.length + b.conv.usedData.length ∧
+      hd.tracks.map (·.1) = channelIds song ∧ hd.tracks.map (·.2) = (List.range b.trackList.length).map (trackPos b) ∧
+      (mf.entries.map (·.id)).Nodup ∧
+      (∀ e ∈ mf.entries, b.conv.subList.length + b.conv.macroList.length ≤ e.id ∧ e.id < hd.slots) ∧
+      (∀ (i : Nat) (hi : i < b.trackList.length), ∃ stop,
+        MdsResolve.decodeStream mf.seq (mf.seq.length + 1) (trackPos b i) false [] =
+          some (MdsRead.opsOf b.conv.subList.length b.conv.macroList.length b.trackList[i].2 false, stop)) ∧
+      (∀ (k : Nat) (hk : k < b.conv.subList.length) (drum : Bool), ∃ p stop, MdsResolve.streamPos mf hd k = some p ∧
+        MdsResolve.decodeStream mf.seq (mf.seq.length + 1) p drum [] =
+          some (MdsRead.opsOf b.conv.subList.length b.conv.macroList.length b.conv.subList[k] drum, stop)) ∧
+      (∀ l ∈ b.trackList.map (·.2) ++ b.conv.subList, ∀ (drum : Bool),
+        ∀ o ∈ MdsRead.opsOf b.conv.subList.length b.conv.macroList.length l drum, Resolves song d b bank mf hd o) :=
+  C09_full_partial hpc h hg hs hn (C09_small_of_sizes hsize) (C09_writer_outputs_in_frag hpc hpf h) hlen
+
+/-- the decidable residual hypotheses of `C09_full_partial2` (`Spec/MdsFrag.fullHyps`, evaluated by the judge) -/
+theorem fullHyps_sound {song : Song} {d : DataInfo} {b : Built} (h : fullHyps song d b = true) :
+    (song.tracks.map (·.1)).Pairwise (· < ·) ∧ 0 < b.trackList.length ∧ platformFrag d = true ∧
+    (∀ s ∈ b.trackStreams ++ b.subStreams, s.length < 65536) := by
+  simp only [fullHyps, Bool.and_eq_true, decide_eq_true_eq, List.all_eq_true] at h
+  obtain ⟨⟨⟨h1, h2⟩, h4⟩, h5⟩ := h
+  exact ⟨h1, h2, h4, h5⟩
+
+/-! #### non-vacuity of round 4: a song WITH a channel track goes through `construct`
+The writer is a mutual well-founded recursion the kernel does not unfold; the instance is proved by
+rewriting with the equation lemmas one loop iteration at a time, every non-recursive piece
+(`stepTrace`, the hook's `switch`, `end_hook`, `assemble`) evaluated by `rfl`. -/
+section Ex4
+open Ctrmml.Player
+
+def ex4Song : Song := { tracks := [(0, [⟨ev_NOTE, 40, 2, 2⟩])] }
+def ex4Root : List Event := [⟨ev_NOTE, 40, 2, 2⟩]
+def ex4S1 : PState := { core := { track := .root, position := 1, stack := [] }, acc := { onTime := 2, offTime := 2 } }
+def ex4S2 : PState := { core := { track := .root, position := 2, stack := [] }, acc := { playTime := 4, enabled := false } }
+def ex4It : TraceItem := { ev := ⟨ev_NOTE, 40, 2, 2⟩, on := 2, off := 2, insideLoop := false, insideJump := false, topLoop := false }
+def ex4W0 : WState := { drumEnabled := false, inDrum := false, trackId := 0 }
+def ex4W1 : WState := { ex4W0 with out := [⟨mds_NOTE + 40, 2⟩], restTime := 2 }
+def ex4W2 : WState := { ex4W0 with out := [⟨mds_NOTE + 40, 2⟩, ⟨mds_REST, 2⟩, ⟨mds_FINISH, 0⟩], restTime := 0 }
+
+theorem ex4_step1 : stepTrace ex4Song ex4Root false initState = .ok (ex4S1, some (some ex4It)) := rfl
+theorem ex4_hook (n : Nat) : hook ex4Song {} (n + 1) {} ex4W0 ex4It = .ok ({}, ex4W1) := by
+  rw [hook_succ_eq]; rfl
+theorem ex4_step2 : stepTrace ex4Song ex4Root false ex4S1 = .ok (ex4S2, some none) := rfl
+
+theorem ex4_run : runWriter ex4Song {} ex4Root 64 20000000 {} ex4W0 initState = .ok ({}, ex4W2) := by
+  rw [runWriter]
+  simp only [ex4_step1, ex4_hook]
+  rw [if_neg (by decide), runWriter]
+  simp only [ex4_step2]
+  rw [if_neg (by decide)]
+  rfl
+
+theorem ex4_parse : parseTracks ex4Song {} (channelIds ex4Song) {} [] = .ok ({}, [(0, ex4W2.out)]) := by
+  show parseTracks ex4Song {} [0] {} [] = _
+  rw [parseTracks]
+  simp only [show ex4Song.track? 0 = some ex4Root from rfl]
+  rw [show ((0 : Nat) : Int) = 0 from rfl, show ({ drumEnabled := false, inDrum := false, trackId := 0 } : WState) = ex4W0 from rfl, ex4_run]
+  rfl
+
+/-- `note 40` on channel A: the constructor runs the writer and assembles its one list `[note, rest, FINISH]` -/
+theorem ex4_construct : construct ex4Song {} (some "7") = assemble {} [(0, ex4W2.out)] (some "7") := by
+  unfold construct
+  rw [ex4_parse]
+
+/-- the decidable hypotheses on that export (and its `seq `) -/
+theorem ex4_hyps : (assemble {} [(0, ex4W2.out)] (some "7")).toOption.map
+    (fun b => (fullHyps ex4Song {} b, b.seq)) = some (true, [0, 8, 7, 1, 0, 0, 0, 0, 170, 1, 1, 255]) := by decide
+
+/-- all hypotheses of `C09_full_partial2` hold of this song (empty bank, no PCM, no `#group`);
+and the conclusion of `C09_writer_outputs_in_frag` is about a non-empty list -/
+example : PlatformClean {} ∧ platformFrag {} = true ∧ ∃ b, construct ex4Song {} (some "7") = .ok b ∧
+    (ex4Song.tracks.map (·.1)).Pairwise (· < ·) ∧ 0 < b.trackList.length ∧
+    exportSmall b [] [] [] = true ∧ (∀ s ∈ b.trackStreams ++ b.subStreams, s.length < 65536) ∧
+    (∀ l ∈ b.trackList.map (·.2) ++ b.conv.subList, MdsRead.Frag l) ∧ ex4W2.out ∈ b.trackList.map (·.2) := by
+  have hpc : PlatformClean {} := by intro k evs h; simp at h
+  refine ⟨hpc, rfl, ?_⟩
+  have hh := ex4_hyps
+  cases hb : assemble {} [(0, ex4W2.out)] (some "7") with
+  | error e => rw [hb] at hh; simp [Except.toOption] at hh
+  | ok b =>
+    rw [hb] at hh
+    simp only [Except.toOption, Option.map_some, Option.some.injEq, Prod.mk.injEq] at hh
+    obtain ⟨h1, hseq⟩ := hh
+    obtain ⟨q1, q2, q3, q4⟩ := fullHyps_sound h1
+    have hc : construct ex4Song {} (some "7") = .ok b := by rw [ex4_construct, hb]
+    obtain ⟨_, _, _, _, _, _, _, hcv, ht, _⟩ := assemble_ok hb
+    have h2 : exportSmall b [] [] [] = true := by
+      apply C09_small_of_2GiB
+      · rw [hcv]; simp [usedSorted, usedBytes]
+      · rw [hseq]; decide
+      · decide
+    exact ⟨b, hc, q1, q2, h2, q4, C09_writer_outputs_in_frag hpc rfl hc, by rw [ht]; simp⟩
+
+end Ex4
+
+/-! #### non-vacuity with a loop and a subroutine: `A [c]2 *100`, `*100 d`
+(`Proofs/MdsFragEx`: one `runWriter` iteration per rewrite; the player's states are unified by `rfl`) -/
+section Ex5
+open Ctrmml.Player Ctrmml.MdsFragP
+
+def ex5Root : List Event := [⟨ev_LOOP_START, 0, 0, 0⟩, ⟨ev_NOTE, 40, 2, 2⟩, ⟨ev_LOOP_END, 2, 0, 0⟩, ⟨ev_JUMP, 100, 0, 0⟩]
+def ex5Sub : List Event := [⟨ev_NOTE, 42, 3, 1⟩]
+def ex5Song : Song := { tracks := [(0, ex5Root), (100, ex5Sub)] }
+def ex5W0 : WState := { drumEnabled := false, inDrum := false, trackId := 0 }
+
+theorem ex5_sub (c : Conv) : runWriter ex5Song {} ex5Sub 61 20000000 c { drumEnabled := false, inDrum := false, trackId := 100 } initState =
+    .ok (c, { drumEnabled := false, inDrum := false, trackId := 100, out := [⟨mds_NOTE + 42, 3⟩, ⟨mds_REST, 1⟩, ⟨mds_FINISH, 0⟩] }) := by
+  rw [run_hook_step rfl rfl rfl ((hook_vis rfl rfl).trans rfl)]
+  rw [run_end_step rfl rfl rfl]
+  rfl
+
+def ex5Conv : Conv := { subMap := [(400, 0)], subList := [[⟨mds_NOTE + 42, 3⟩, ⟨mds_REST, 1⟩, ⟨mds_FINISH, 0⟩]] }
+def ex5W : WState := { ex5W0 with out := [⟨mds_LP, 0⟩, ⟨mds_NOTE + 40, 2⟩, ⟨mds_REST, 2⟩, ⟨mds_LPF, 2⟩, ⟨mds_PAT, 0⟩, ⟨mds_FINISH, 0⟩] }
+
+/-- `A [c]2 *100` with `*100 d`: the writer's run on channel A, one loop iteration of `runWriter` at a time -/
+theorem ex5_run : runWriter ex5Song {} ex5Root 64 20000000 {} ex5W0 initState = .ok (ex5Conv, ex5W) := by
+  rw [run_hook_step rfl rfl rfl ((hook_vis rfl rfl).trans rfl)]   -- LOOP_START
+  rw [run_hook_step rfl rfl rfl ((hook_vis rfl rfl).trans rfl)]   -- NOTE, first pass
+  rw [run_hook_step rfl rfl rfl (hook_silent rfl (by decide))]     -- LOOP_END: back for the second pass
+  rw [run_hook_step rfl rfl rfl (hook_silent rfl (by decide))]     -- NOTE, second pass: silenced
+  rw [run_hook_step rfl rfl rfl ((hook_vis rfl rfl).trans rfl)]   -- LOOP_END, last pass
+  rw [run_hook_step rfl rfl rfl ((hook_vis rfl rfl).trans (hookVis_jump rfl (getSub_new rfl rfl (ex5_sub _))))]  -- JUMP
+  rw [run_hook_step rfl rfl rfl (hook_silent rfl (by decide))]     -- NOTE of the subroutine: inside a jump
+  rw [run_none_step rfl rfl rfl]                                   -- END of the subroutine: return
+  rw [run_end_step rfl rfl rfl]
+  rfl
+
+theorem ex5_construct : construct ex5Song {} none = assemble ex5Conv [(0, ex5W.out)] none := by
+  unfold construct
+  have hp : parseTracks ex5Song {} (channelIds ex5Song) {} [] = .ok (ex5Conv, [(0, ex5W.out)]) := by
+    show parseTracks ex5Song {} [0] {} [] = _
+    rw [parseTracks]
+    simp only [show ex5Song.track? 0 = some ex5Root from rfl]
+    rw [show ((0 : Nat) : Int) = 0 from rfl, show ({ drumEnabled := false, inDrum := false, trackId := 0 } : WState) = ex5W0 from rfl, ex5_run]
+    rfl
+  rw [hp]
+
+theorem ex5_hyps : (assemble ex5Conv [(0, ex5W.out)] none).toOption.map (fun b => (fullHyps ex5Song {} b, b.seq)) =
+    some (true, [0, 8, 0, 1, 0, 0, 0, 2, 0, 11, 250, 170, 1, 1, 251, 2, 254, 0, 255, 172, 2, 0, 255]) := by decide
+
+
+/-- all hypotheses of `C09_full_partial2` hold of this song; the conclusion of
+`C09_writer_outputs_in_frag` covers a channel list with a loop and a call, and a subroutine list -/
+example : PlatformClean {} ∧ platformFrag {} = true ∧ ∃ b, construct ex5Song {} none = .ok b ∧
+    (ex5Song.tracks.map (·.1)).Pairwise (· < ·) ∧ 0 < b.trackList.length ∧
+    exportSmall b [] [] [] = true ∧ (∀ s ∈ b.trackStreams ++ b.subStreams, s.length < 65536) ∧
+    (∀ l ∈ b.trackList.map (·.2) ++ b.conv.subList, MdsRead.Frag l) ∧
+    b.trackList.map (·.2) ++ b.conv.subList = [ex5W.out, [⟨mds_NOTE + 42, 3⟩, ⟨mds_REST, 1⟩, ⟨mds_FINISH, 0⟩]] := by
+  have hpc : PlatformClean {} := by intro k evs h; simp at h
+  refine ⟨hpc, rfl, ?_⟩
+  have hh := ex5_hyps
+  cases hb : assemble ex5Conv [(0, ex5W.out)] none with
+  | error e => rw [hb] at hh; simp [Except.toOption] at hh
+  | ok b =>
+    rw [hb] at hh
+    simp only [Except.toOption, Option.map_some, Option.some.injEq, Prod.mk.injEq] at hh
+    obtain ⟨h1, hseq⟩ := hh
+    obtain ⟨q1, q2, q3, q4⟩ := fullHyps_sound h1
+    have hc : construct ex5Song {} none = .ok b := by rw [ex5_construct, hb]
+    obtain ⟨_, _, _, _, _, _, _, hcv, ht, _⟩ := assemble_ok hb
+    have h2 : exportSmall b [] [] [] = true := by
+      apply C09_small_of_2GiB
+      · rw [hcv]; simp [usedSorted, usedBytes, ex5Conv]
+      · rw [hseq]; decide
+      · decide
+    exact ⟨b, hc, q1, q2, h2, q4, C09_writer_outputs_in_frag hpc rfl hc, by rw [ht, hcv]; rfl⟩
+
+end Ex5
 
 /-! ### non-vacuity: a conversion state with one subroutine, one data item and one channel track
 assembles, and the container is produced -/
